@@ -6,7 +6,7 @@ computed from the shape spec the generator used, not from Pyro's code."""
 import threading
 import time
 
-from vlib import core, gen, fixture, wire
+from vlib import core, gen, fixture, wire, yieldinj
 
 PROPERTY = "C02"
 LEVEL = "exploration"
@@ -338,6 +338,31 @@ def run_shape(fx, shape, sername, rec, r, light=False):
         fx.daemon.unregister("target")
     fx.daemon.register(obj, "target", force=True)
     ser = P.serializers.serializers[sername]
+    # the very first clients of a new class connect at the same moment (thread server: their handshakes are served by different threads while
+    # the class is inspected for the first time): each of them is told the complete member list
+    first_metas = []
+    if fx.servertype == "thread":
+        import threading
+
+        def first_client():
+            try:
+                c = wire.RawClient(fx.location)
+                m = c.handshake("target", ser)
+                if m.type == wire.CONNECTOK:
+                    first_metas.append(ser.loads(m.data)["meta"])
+                c.close()
+            except Exception as x:
+                first_metas.append(x)
+        yieldinj.enable((), 0.0, 1, delay_funcs=(("Pyro5/server.py", "_get_exposed_members", 0.0004),))
+        try:
+            ts = [threading.Thread(target=first_client, daemon=True) for _ in range(4)]
+            for i, t in enumerate(ts):
+                t.start()
+                time.sleep((0.0, 0.004, 0.009, 0.0)[i])       # (some arrive together, some while the first inspection is under way)
+            for t in ts:
+                t.join(20)
+        finally:
+            yieldinj.disable()
     sess = Session(fx, ser)
     shape_h = core.h64(src)
     names = requested_names(shape, r)
@@ -423,9 +448,14 @@ def run_shape(fx, shape, sername, rec, r, light=False):
             rec.count("refused_ok")
     # advertised member list == served set
     exp_m, exp_a, exp_o = model.metadata()
-    for source in ("get_metadata", "handshake"):
+    for source in ("get_metadata", "handshake") + tuple("racing-first-handshake-%d" % i for i in range(len(first_metas))):
         try:
-            if source == "get_metadata":
+            if source.startswith("racing"):
+                meta = first_metas[int(source.rsplit("-", 1)[1])]
+                if isinstance(meta, Exception):
+                    raise meta
+                rec.count("racing_first_handshakes")
+            elif source == "get_metadata":
                 m = sess.conn().invoke("Pyro.Daemon", "get_metadata", ("target",), {}, ser)
                 meta = ser.loads(m.data)
                 if m.flags & wire.F_EXC:
